@@ -88,7 +88,7 @@ func verifC11Gen(t *rapid.T, w *verifC11World) *verifC11Act {
 	}
 	switch kind {
 	case "commit":
-		return &verifC11Act{A: "commit", Op: w.gen.DrawOp(t, verifC11Cfg)}
+		return &verifC11Act{A: "commit", Op: verifC11Retarget(t, w.gen.DrawOp(t, verifC11Cfg))}
 	case "acl":
 		return &verifC11Act{A: "acl", Idx: w.gen.NextIdx(t), ACL: verifC11Pick(t, "aclop", []string{
 			"token:TA", "token:TB", "token:TC", "token-del:TA", "token-del:TB", "policy:P1", "policy:P2", "role:R1", "policy:P1", "role:R1"})}
@@ -122,6 +122,28 @@ func verifC11Gen(t *rapid.T, w *verifC11World) *verifC11Act {
 		return &verifC11Act{A: "sleep", N: verifC11Pick(t, "sleep", []int{3, 3, 11})}
 	}
 	panic("unreachable")
+}
+
+// verifC11Retarget sometimes turns a drawn sidecar registration into the registration of ONE fixed sidecar identity
+// ("sidecar"/"sidecar-1") whose destination varies: the shared generator derives a proxy's ID from its destination,
+// so without this no history would ever re-point an existing proxy instance at another service.
+func verifC11Retarget(t *rapid.T, op *vs.Op) *vs.Op {
+	if op.Kind != vs.Register || op.P.Reg.Service == nil || op.P.Reg.Service.Kind != structs.ServiceKindConnectProxy || op.P.Reg.PeerName != "" {
+		return op
+	}
+	if !verifC11Chance(t, "retarget", 35) {
+		return op
+	}
+	req := op.Fresh().Reg
+	oldID := req.Service.ID
+	req.Service.Service, req.Service.ID = "sidecar", "sidecar-1"
+	req.Service.Proxy.DestinationServiceID = ""
+	for _, c := range req.Checks {
+		if c.ServiceID == oldID {
+			c.ServiceID, c.ServiceName = "sidecar-1", "sidecar"
+		}
+	}
+	return vs.NewRegister(op.Idx, req)
 }
 
 // verifC11DrawQ picks what to subscribe to: mostly something a still-unpublished commit changed (so that the
